@@ -31,7 +31,7 @@ func (c09) Meta() fw.Meta {
 			"the oracle uses the clock the command printed; the symmetry relation is only judged when both runs printed the same clock",
 			"a glob pattern that matches nothing on the source side is not a 'missing file' and is not judged here (C16 covers it)",
 		},
-		Obligations: []string{"diff_runs", "clean_verdicts", "diff_verdicts", "records_checked", "self_diff", "identical_files", "ulp_apart", "signed_zero_equal", "nan_vs_nan_equal", "nan_vs_value", "missing_src", "missing_dest", "layout_mismatch_error", "symmetry_checked", "glob_one_differs", "glob_none_differs", "single_archive_selection", "remote_side_runs", "text_out_file_runs", "never_written_side", "symlinked_source_in_glob", "unclean_base_spelling", "remote_glob_runs", "both_sides_remote_runs", "both_sides_remote_long_archives"},
+		Obligations: []string{"diff_runs", "clean_verdicts", "diff_verdicts", "records_checked", "self_diff", "identical_files", "ulp_apart", "signed_zero_equal", "nan_vs_nan_equal", "nan_vs_value", "missing_src", "missing_dest", "layout_mismatch_error", "symmetry_checked", "glob_one_differs", "glob_none_differs", "single_archive_selection", "remote_side_runs", "text_out_file_runs", "never_written_side", "symlinked_source_in_glob", "unclean_base_spelling", "remote_glob_runs", "both_sides_remote_runs", "both_sides_remote_long_archives", "runs_with_concurrent_clients", "concurrent_noise_requests_served"},
 		Workers:     12,
 	}
 }
@@ -321,6 +321,7 @@ func (c09) Run(c *fw.Ctx) {
 	}
 	extra := []string(nil)
 	patArg := pat
+	noiseBase, noiseFiles := "", []string(nil)
 	if sc.Glob && c.Index%3 == 1 {
 		// glob mode with the source served by the real server: the destination tree mirrors the served path
 		if u, served, ok := workerServer(c); ok {
@@ -350,6 +351,12 @@ func (c09) Run(c *fw.Ctx) {
 			patArg = filepath.Join(filepath.Base(ls), pat)
 			extra = []string{"-dest", filepath.Join(filepath.Base(ld), pat)}
 			sc.Kind += "+both-remote"
+			if c.Index%4 == 2 || big {
+				np := filepath.Join(aBase, "noise.wsp")
+				writeFixture(np, l, genContent(r, l, now, 0.9), now)
+				noiseBase = u
+				noiseFiles = []string{filepath.Join(filepath.Base(ls), pat), filepath.Join(filepath.Base(ld), pat), filepath.Join(filepath.Base(ls), "noise.wsp")}
+			}
 			c.Count("remote_side_runs", 1)
 			c.Count("both_sides_remote_runs", 1)
 			if big {
@@ -380,7 +387,15 @@ func (c09) Run(c *fw.Ctx) {
 		extra = append(extra, "-text-out", toFile)
 		c.Count("text_out_file_runs", 1)
 	}
-	res := runCLI(c, append(mkArgs(srcBaseArg, destBaseArg, patArg), extra...)...)
+	var res cliResult
+	run := func() { res = runCLI(c, append(mkArgs(srcBaseArg, destBaseArg, patArg), extra...)...) }
+	if noiseBase != "" {
+		// other clients read the same files (and one of unrelated content) from the same server meanwhile
+		withServerNoise(c, noiseBase, noiseFiles, run)
+		c.Count("runs_with_concurrent_clients", 1)
+	} else {
+		run()
+	}
 	if toFile != "" {
 		// the listing goes to the file: it must be complete there
 		res.Stdout = string(readFileOrNil(toFile))
